@@ -835,7 +835,29 @@ class Expander(ast.NodeTransformer):
                 bind = self._bind(m, args, kws)
                 if bind is not None:
                     return self.expand_member(m, bind)
+        if isinstance(f, ast.Name):
+            # a private helper FUNCTION of the module the calling member lives in (`_nan_skipping_total(values, axis)`):
+            # its summary with the arguments bound, like a private helper method
+            fm = self._module_function(f.id)
+            if fm is not None and not self.stop(fm):
+                args = [self.visit(a) for a in node.args]
+                kws = {k.arg: self.visit(k.value) for k in node.keywords if k.arg}
+                bind = self._bind(fm, args, kws)
+                if bind is not None:
+                    return self.expand_member(fm, bind)
         return self.generic_visit(node)
+
+    def _module_function(self, name: str) -> Optional[Member]:
+        if not name.startswith("_") or name.startswith("__"):
+            return None
+        owner = self.ctx
+        if self.stack:
+            q = self.stack[-1][0]
+            owner = next((c for c in self.ctx.mro if c.qual == q), self.ctx)
+        fn = owner.module.functions.get(name)
+        if fn is None or fn.args.vararg or fn.args.kwarg or any(isinstance(n, (ast.Yield, ast.YieldFrom)) for n in ast.walk(fn)):
+            return None
+        return Member(name=name, cls=owner, node=fn, kind="staticmethod")
 
     def _instance_assigned(self, attr: str) -> bool:
         """True when some method of the class (or a base) assigns `self.<attr>`: the class-level value is only a default"""
